@@ -68,6 +68,24 @@ struct ObsRouter : public Router {
     }
 };
 
+// The library's diagnostics of one transaction (err_printf writes to the C stream `stderr`): the FILE*
+// variable is pointed at a memory stream for the duration (glibc), file descriptor 2 - where the
+// sanitizers write - is not touched, and the text is passed on to the real stderr afterwards.
+struct ErrCapture {
+    FILE *saved, *mem; char *buf; size_t len;
+    ErrCapture() : saved(nullptr), mem(nullptr), buf(nullptr), len(0) {
+        fflush(stderr); saved = stderr; mem = open_memstream(&buf, &len); if (mem) stderr = mem;
+    }
+    std::string finish() {
+        if (!mem) return "";
+        fflush(mem); stderr = saved; fclose(mem); mem = nullptr;
+        std::string t(buf ? buf : "", len); free(buf); buf = nullptr;
+        fputs(t.c_str(), stderr);
+        return t;
+    }
+    ~ErrCapture() { finish(); }
+};
+
 struct Scene {
     ObsRouter *router;
     int stepNo = 0;
@@ -114,6 +132,16 @@ struct Scene {
             c.ref->setRoutingCheckpoints(v);
         }
         c.live = true;
+    }
+    // processTransaction(); "skips": the connectors for which generateCheckpointsPath reported a skipped
+    // checkpoint during this transaction ("Warning: skipping checkpoint for connector <id> at (x, y).")
+    void transact() {
+        std::string text;
+        { ErrCapture cap; router->processTransaction(); text = cap.finish(); }
+        std::set<int> sk;
+        const std::string key = "skipping checkpoint for connector ";
+        for (size_t p = text.find(key); p != std::string::npos; p = text.find(key, p + 1)) sk.insert(atoi(text.c_str() + p + key.size()) - 1000);
+        printf("skips %zu", sk.size()); for (int c : sk) printf(" %d", c); printf("\n");
     }
     void observe() {
         for (auto &s : shapes) if (s.live) {
@@ -230,7 +258,7 @@ int main(int argc, char **argv) {
     // searches a connector a second time within the transaction) and histories that drag free connector ends
     // (a later search of the same connector over visibility edges that persisted)
     bool cpDirsMode = a.mode.find("cpdirs") != std::string::npos;
-    if (cpDirsMode && a.n < 0) ncases = (thorough ? 2000 : 400) * a.scale;
+    if (cpDirsMode && a.n < 0) ncases = (thorough ? 2000 : 300) * a.scale;
     long from = 0;
     for (int i = 1; i + 1 < argc; ++i) if (std::string(argv[i]) == "--from") from = atol(argv[i + 1]);
     for (long k = from; k < ncases; ++k) {
@@ -463,7 +491,7 @@ int main(int argc, char **argv) {
             sc.conns.push_back(c);
         }
         printf("step 0 init\n"); fflush(stdout);
-        sc.router->processTransaction();
+        sc.transact();
         sc.observe();
         // ---- history
         int nsteps = (int) (thorough ? r.range(2, 7) : r.range(1, 4));
@@ -631,7 +659,7 @@ int main(int argc, char **argv) {
                 }
             }
             printf("step %d\n", st); fflush(stdout);
-            sc.router->processTransaction();
+            sc.transact();
             sc.observe();
         }
         vh::endCase();
